@@ -117,6 +117,9 @@ func (eng *Engine) runProperty(prop, only string) *PropRun {
 		if strings.HasPrefix(fc.Name, "(") && eng.allFuncs[fc.Pkg+"::"+fc.Name] == nil && isIfaceContract(eng, fc) {
 			continue
 		}
+		if strings.HasPrefix(fc.Name, "dyn:") {
+			continue
+		}
 		jobs = append(jobs, job{fc: fc})
 	}
 	for _, l := range eng.contracts.Lemmas {
